@@ -48,6 +48,22 @@ CHECKS = {
   "Random call histories (write/empty write/flush/get_output/finish) over six scenarios continued up to 50 calls past the latch event; an online 3-state latch checker judges each call at the API boundary; snapshot hook confirms the internal phase.",
   "The statement is the oracle.",
   TECH + ": online latch-automaton checker over recorded call histories"),
+ "C07": ("exploration", "§4 C07",
+  "Hostile bytes from 9 sources through 6 entry points (all options, memlimits, raw constructor parameter grid, Stream under random chunking) with three monitors per execution: panic capture, a logical step budget fed by Tick hooks at every loop head, and a counting allocator with a non-storing capped sink; run in overflow-checked and in release arithmetic; thorough adds a Miri slice.",
+  "Bounds: ticks <= 64 x (input + produced) + 4096; peak heap <= 8 MiB + 8 x (consumed + produced). Constructor panics on out-of-range lc/lp/pb count as 'not accepted'.",
+  TECH + ": panic / step-budget / counting-allocator monitors under hostile workload (+ Miri slice)"),
+ "C12": ("fault_enumeration", "§4 C12",
+  "Per job (11 operations: decoders, raw decoders, Stream, all encoders): every sink write k failing, flush failing, every source call k failing, Interrupted once, underlying reads failing behind BufReaders, short-writing sinks; injected fault => Err and sink is a prefix of the fault-free output; Ok => sink equals it; LZMA/LZMA2 decoders leave nothing unflushed.",
+  "Oracle = fault-free run of the same call. Exhaustive in k per job up to the stated caps; jobs sampled.",
+  TECH + ": exhaustive per-input I/O fault injection with prefix oracle"),
+ "C13": ("exploration", "§4 C13",
+  "Per input (valid and invalid, 8 sources, 5 decoders) the slice-reader run is compared with Cursor, BufReader of every capacity 1..64, and randomised short-read readers: same verdict, and on success same bytes and consumed count.",
+  "Differential against lzma-rs' own slice-reader run; error text differences are warnings.",
+  TECH + ": differential monitor over reader fragmentations"),
+ "C14": ("exploration", "§4 C14",
+  "Random histories of decompress(valid/truncated/corrupt) and reset calls on raw LzmaDecoder and Lzma2Decoder, up to 12 (thorough 200) reuse cycles; after every reset the next decode is compared in full (verdict incl. text, bytes, consumed) with a freshly constructed decoder; normalised Debug output as extra witness.",
+  "3-line model of the size in effect (reset(None) keeps it).",
+  TECH + ": differential history monitor (reset vs fresh)"),
  "C08": ("exploration", "§4 C08",
   "Table-driven: option x header-field x provided-size x stream-shape cells, each decided by the reference decoder run with the size in effect, executed through the one-shot API and through Stream; header byte consumption observed on the reader.",
   "Trusted: reference decoder. The documented clean-EOF leniency is accepted either way.",
